@@ -391,8 +391,9 @@ def check_C06(ctx):
 # ------------------------------------------------------------------------------------------------
 # C09 / C10 (one machine: ReaderInput)
 # ------------------------------------------------------------------------------------------------
-C09_VERDICTS = {"error-differs", "value-differs", "reader-lends", "borrowed-not-verbatim", "verbatim-not-lent", "transformed-lent"}
-C10_VERDICTS = {"fault-swallowed", "drained-past-cap", "cap-ignored", "write-fault-swallowed", "not-a-prefix"}
+C09_VERDICTS = {"error-differs", "value-differs", "reader-lends", "borrowed-not-verbatim", "verbatim-not-lent", "transformed-lent", "entry-points-disagree"}
+C10_VERDICTS = {"fault-swallowed", "drained-past-cap", "cap-ignored", "write-fault-swallowed", "not-a-prefix", "value-from-truncated-input",
+                "affected-by-a-cap-it-fits-under", "fault-swallowed-by-the-iterator"}
 
 
 def reader_check(ctx, which):
@@ -407,6 +408,9 @@ def reader_check(ctx, which):
     ctx.samples += st["samples"]
     mism = run_tv(ctx, "TV_ReaderInput", recs, timeout=3000)
     mine = C09_VERDICTS if which == "C09" else C10_VERDICTS
+    unknown = {m[1].get("verdict") for m in mism if isinstance(m[1], dict)} - C09_VERDICTS - C10_VERDICTS
+    if unknown:
+        raise ToolError(f"TV_ReaderInput verdicts not assigned to C09 or C10: {sorted(unknown)}")
     own = [m for m in mism if isinstance(m[1], dict) and m[1].get("verdict") in mine]
     other = len(mism) - len(own)
     if other:
@@ -565,9 +569,14 @@ def emitter_matchers():
         def has(v):
             return v["t"] == "Fold" and ("\n" in v["s"].rstrip("\n") or v["s"].endswith("\n\n"))
         return isinstance(d, dict) and d.get("verdict") in ("value-changed", "layout-changed-data") and _tree_has(d["tree"], has)
+    def spaceafter_keep(rec, d):
+        # a SpaceAfter somewhere, a Lit ending in two or more line breaks somewhere below it, and exactly one extra "\n" read back
+        def has(v):
+            return v["t"] == "SpaceAfter" and _tree_has(v, lambda x: x["t"] == "Lit" and x["s"].endswith("\n\n"))
+        return isinstance(d, dict) and d.get("verdict") in ("value-changed", "layout-changed-data") and _tree_has(d["tree"], has)
     def indent_step_1(rec, d):
         return isinstance(d, dict) and d.get("opt", "") in ("i1", "i1c")
-    return {"C13-indent-step-1": indent_step_1, "C20-indent-step-1": indent_step_1, "C20-foldstr-folds-line-breaks": foldstr_folds, "C20-empty-litstr-in-option": empty_lit_in_option, "C13-empty-as-braces-off": empty_braces_off, "C13-complex-key-value-map-indent4": complex_key_indent4,
+    return {"C20-spaceafter-keep-block-scalar": spaceafter_keep, "C13-indent-step-1": indent_step_1, "C20-indent-step-1": indent_step_1, "C20-foldstr-folds-line-breaks": foldstr_folds, "C20-empty-litstr-in-option": empty_lit_in_option, "C13-empty-as-braces-off": empty_braces_off, "C13-complex-key-value-map-indent4": complex_key_indent4,
             "C20-empty-as-braces-off": empty_braces_off, "C20-complex-key-value-map-indent4": complex_key_indent4,
             "C20-flowmap-complex-key": flowmap_complex_key, "C20-variant-inside-flow": variant_inside_flow}
 
